@@ -17,7 +17,7 @@ const (
 )
 
 func SArr(idx, el Sort) Sort { return Sort("(Array " + string(idx) + " " + string(el) + ")") }
-func SBV(w int) Sort        { return Sort(fmt.Sprintf("(_ BitVec %d)", w)) }
+func SBV(w int) Sort         { return Sort(fmt.Sprintf("(_ BitVec %d)", w)) }
 
 func (s Sort) isBV() bool { return strings.HasPrefix(string(s), "(_ BitVec") }
 func (s Sort) bvWidth() int {
